@@ -368,7 +368,12 @@ def _run_grainhist(desc):
                         v = getattr(g0, pfirst)                 # and the second one
                         if isinstance(v, np.ndarray):
                             v[...] = -3.5
-                        bad_p = [p for p in PROPS if not close(getattr(g0, p), getattr(fresh0, p), 1e-12)]
+                        def differs(p):
+                            try:
+                                return not close(getattr(g0, p), getattr(fresh0, p), 1e-12)
+                            except Exception:          # e.g. xfab refusing a U built from a cell the caller edited
+                                return True
+                        bad_p = [p for p in PROPS if differs(p)]
                         if bad_p:
                             sh.violation("grain.%s:changes-when-the-caller-writes-into-a-returned-array" % bad_p[0],
                                          {"kind": "grainhist", "first_ubi": a, "second_ubi": b, "read_before_set_ubi": ["scribble on " + pfirst], "seed": seed_of()}, {})
